@@ -903,11 +903,16 @@ func chIsClosed(ch <-chan struct{}) bool {
 // q is the internal implementation of queue that writes the ModifyRequest to
 // the channel to be sent.
 func (c *Client) q(m *spb.ModifyRequest) {
-	c.awaiting.RLock()
-	defer c.awaiting.RUnlock()
-
-	if !chIsClosed(c.sendExitCh) {
-		c.qs.modifyCh <- m
+	// awaiting is deliberately not held here: the operations of m are already in the
+	// pending queue (handleModifyRequest), so the client cannot be seen as converged, and
+	// holding a read lock while blocked on the channel deadlocks with AwaitConverged.
+	if chIsClosed(c.sendExitCh) {
+		return
+	}
+	select {
+	case c.qs.modifyCh <- m:
+	case <-c.sendExitCh:
+		// the sender exited while we were waiting for room in the channel.
 	}
 }
 
